@@ -21,10 +21,15 @@ Ftp::ParseIpPort(const char *buf, const char *forceIp, Ip::Address &addr)
     int p1, p2;
     // at most three digits per component: longer numbers cannot be valid and
     // must not get a chance to wrap around inside sscanf()
-    const int n = sscanf(buf, "%3d,%3d,%3d,%3d,%3d,%3d",
-                         &h1, &h2, &h3, &h4, &p1, &p2);
+    int parsed = 0; // %n is not counted in the sscanf() result
+    const int n = sscanf(buf, "%3d,%3d,%3d,%3d,%3d,%3d%n",
+                         &h1, &h2, &h3, &h4, &p1, &p2, &parsed);
 
     if (n != 6 || p1 < 0 || p2 < 0 || p1 > 255 || p2 > 255)
+        return false;
+
+    // the three-digit limit must not turn a longer last number into its prefix
+    if (xisdigit(buf[parsed]))
         return false;
 
     if (h1 < 0 || h2 < 0 || h3 < 0 || h4 < 0 ||
